@@ -281,6 +281,17 @@ def programs(hints=()):
                                          "ops": [["new", "A"], ["poke", "x", -1], ["poke", "z", -1], ["call", "pub"]]}))
     B2 = {"name": "B", "base": "A", "invs": [inv("y")], "init": {"super": "first", "sets": ["y"]}, "defines": []}
     out.append(("inherited order", {"classes": [A(), B2], "ops": [["new", "B"], ["poke", "x", -1], ["poke", "y", -1], ["call", "pub"]]}))
+    # member selection (bounded stand-in for add_invariant_checks): overriding subclasses, properties, decorator orders
+    for order in (["CALL"], ["ALL"], ["CALL", "SETATTR"], ["SETATTR", "CALL"], ["SETATTR"]):
+        base = A(invs=[inv("x", on=o) for o in order], setattr=True)
+        sub = {"name": "B", "base": "A", "invs": [], "init": None, "defines": ["pub", "_priv", "__call__", "prop", "cm", "sm", "async_pub"], "setattr": True}
+        ops = [["new", "B"], ["call", "pub"], ["call", "_priv"], ["call", "__call__"], ["call", "prop"], ["call", "cm"], ["call", "sm"], ["call", "async_pub"],
+               ["set", "x", 3], ["poke", "x", -1], ["call", "_priv"], ["call", "prop"]]
+        out.append(("member selection override " + "+".join(order), {"classes": [base, sub], "ops": ops}))
+        sub2 = dict(sub, invs=[inv("y", on=order[0])], init={"super": "first", "sets": ["y"]})
+        out.append(("member selection sub invariant " + "+".join(order), {"classes": [base, sub2], "ops": ops + [["poke", "x", 1], ["poke", "y", -1], ["call", "pub"]]}))
+        third = {"name": "C", "base": "B", "invs": [], "init": None, "defines": ["pub"], "setattr": False}
+        out.append(("member selection three levels " + "+".join(order), {"classes": [base, sub, third], "ops": [["new", "C"], ["call", "pub"], ["call", "__call__"], ["set", "x", 2], ["poke", "x", -1], ["call", "pub"]]}))
     hints = [h for h in hints if h]
     if hints:
         out.sort(key=lambda t: min([i for i, h in enumerate(hints) if h in t[0]] + [len(hints)]))
